@@ -198,10 +198,20 @@ def run(ctx):
         "the name dictionary is the translator-generated table (see C08)",
         "Spec/NormalizePredicate.lean: the grammar of tolerated spellings (formula styles, case masks, decorations, abbreviations)",
     ]
-    ctx.cov["proved"] = ["C16_total", "C16_canonical", "C16_names", "C16_abbrev", "C16_formula (all junk strings, all 162 keys, all operand/operator styles)", "C16_formula_bang"]
+    ctx.cov["proved"] = [
+        "C16_total", "C16_canonical", "C16_names", "C16_abbrev",
+        "C16_formula (all junk strings, all 162 keys, all operand/operator styles)", "C16_formula_bang",
+        "C16_formula_not_prefix / _not_prefix_spaces / _not_suffix / _is_prefix / _is_suffix / _is_not / "
+        "_is_prefix_not_suffix / _is_not_suffix / _not_is / _bang_is / _bang_is_suffix (every formula spelling, unbounded junk, "
+        "any case of `not`/`is`, any outer whitespace; no side condition on the adjacent junk is needed)",
+        "C16_formula_decorated (each of the 18 decorations of Spec.NP.decorations around every formula spelling)",
+        "C16_name_case / C16_name_mask (19 names, every case mask, any outer whitespace)",
+        "C16_name_decorated (19 names x 12 lower-case decorations, every case of every letter, any outer whitespace)",
+        "C16_name_spec_decorated (19 names x the 18 decorations of Spec.NP.decorations x every case mask)",
+    ]
     ctx.cov["exercised_only"] = [
-        "name spellings under arbitrary case masks and the `is`/`not ` / ` not` decorations of formula spellings (finite skeleton by "
-        "differential run against the specification's renderings, not a theorem)",
+        "decorated NAME spellings with extra whitespace between the decoration word and the name (e.g. `not   after`), and "
+        "whitespace other than the single literal space next to `not`/`is` (e.g. `not\\tx<...`): differential run only, not a theorem",
         "Unicode beyond the model alphabet (implementation-only stream: no exception other than ValueError)",
     ]
     ctx.assumptions += ["model alphabet: ASCII 0x09-0x0D, 0x20-0x7E, '≤', '…'"]
